@@ -126,8 +126,26 @@ pub struct ServerNode {
     /// model: number of rotations so far (== id of the newest key, by the rotation rule
     /// "each rotation adds one key with the next id")
     pub epoch: u64,
+    /// model: rotation epochs (= key ids) of the keys the set holds, oldest first.
+    /// rotate(): keep the newest `history` of them, add the new epoch. A restart
+    /// (store -> load with a possibly different history) keeps the list and only
+    /// changes the history in force.
+    pub live: Vec<u64>,
+    pub restarts: u32,
     pub policy: PolicyModel,
     pub stats: RecStats,
+}
+
+/// What the C26 statement says about a cookie issued at some epoch, now.
+#[derive(Clone, Copy, Debug, PartialEq)]
+pub enum CookieState {
+    /// its key is the current one or among the configured number of previous keys: must decode
+    Valid,
+    /// its key is gone: must not decode
+    Invalid,
+    /// its key is still stored but outside the window of the history now in force (only between a
+    /// restart that lowered the history and the next rotation): the statement is read as allowing either
+    Either,
 }
 
 pub enum Handled {
@@ -143,7 +161,7 @@ impl ServerNode {
         let mut info = NtpServerInfo::default();
         info.ntp_snapshot.stratum = 2;
         let server = Server::new_internal(policy.to_config(), clock.clone(), Arc::new(RwLock::new(info)), provider.get());
-        ServerNode { idx, provider, server, clock, history, epoch: 0, policy, stats: RecStats::default() }
+        ServerNode { idx, provider, server, clock, history, epoch: 0, live: vec![0], restarts: 0, policy, stats: RecStats::default() }
     }
 
     pub fn keyset(&self) -> Arc<KeySet> {
@@ -159,12 +177,46 @@ impl ServerNode {
     pub fn rotate(&mut self) {
         self.provider.rotate();
         self.epoch += 1;
+        let keep = self.live.len().min(self.history);
+        let drop = self.live.len() - keep;
+        self.live.drain(..drop);
+        self.live.push(self.epoch);
         self.server.update_keyset(self.provider.get());
     }
 
-    /// model: is a cookie issued at `issue_epoch` still decodable now?
+    /// Daemon restart: the key set is persisted with the real `store`, read back with the real
+    /// `load` under `new_history` (the operator may have changed stale-key-count) and a new
+    /// `Server` is built around it. Returns false if the stored set does not load.
+    pub fn restart(&mut self, new_history: usize) -> bool {
+        let mut file = Vec::new();
+        if self.provider.store(&mut file).is_err() {
+            return false;
+        }
+        let Ok((provider, _)) = KeySetProvider::load(&mut &file[..], new_history) else {
+            return false;
+        };
+        self.provider = provider;
+        self.history = new_history;
+        self.restarts += 1;
+        let mut info = NtpServerInfo::default();
+        info.ntp_snapshot.stratum = 2;
+        self.server = Server::new_internal(self.policy.to_config(), self.clock.clone(), Arc::new(RwLock::new(info)), self.provider.get());
+        true
+    }
+
+    pub fn model_state(&self, issue_epoch: u64) -> CookieState {
+        match self.live.iter().position(|e| *e == issue_epoch) {
+            None => CookieState::Invalid,
+            Some(i) => {
+                let window_start = self.live.len().saturating_sub(self.history + 1);
+                if i >= window_start { CookieState::Valid } else { CookieState::Either }
+            }
+        }
+    }
+
+    /// model: must a cookie issued at `issue_epoch` decode now?
     pub fn model_valid(&self, issue_epoch: u64) -> bool {
-        self.epoch - issue_epoch <= self.history as u64
+        self.model_state(issue_epoch) == CookieState::Valid
     }
 
     /// Deliver one datagram to the real server. `buf_len`: size of the reply buffer.
